@@ -14,20 +14,20 @@ def _p(quick, thorough=None, extra=None):
 
 
 PROPS = {
-    'C01': _p(['E1', 'E2', 'E3', 'E4', 'E9']),
-    'C02': _p(['E2', 'E3', 'E4', 'E9']),
-    'C03': _p(['E3', 'E4', 'E9']),
-    'C04': _p(['E1', 'E2', 'E3']),
-    'C05': _p(['E5']),
+    'C01': _p(['E1', 'E2', 'E3', 'E4', 'E9', 'EM']),
+    'C02': _p(['E2', 'E3', 'E4', 'E9', 'EM']),
+    'C03': _p(['E3', 'E4', 'E9', 'EM']),
+    'C04': _p(['E1', 'E2', 'E3', 'EM']),
+    'C05': _p(['E5', 'EM']),
     'C06': _p(['E5', 'E3']),
     'C07': _p(['E9']),
-    'C08': _p(['E3', 'E4', 'E5']),
-    'C09': _p(['E2', 'E3', 'E4']),
-    'C10': _p(['E4', 'E3']),
+    'C08': _p(['E3', 'E4', 'E5', 'EM']),
+    'C09': _p(['E2', 'E3', 'E4', 'EM']),
+    'C10': _p(['E4', 'E3', 'EM']),
     'C11': _p(['E3', 'E4']),
-    'C12': _p(['E6', 'E3', 'E4', 'E5', 'E7']),
+    'C12': _p(['E6', 'E3', 'E4', 'E5', 'E7', 'EM']),
     'C13': _p(['E9']),
-    'C14': _p(['E1', 'E2', 'E3', 'E9']),
+    'C14': _p(['E1', 'E2', 'E3', 'E9', 'EM']),
     'C15': _p(['E7', 'E6', 'E3', 'E5', 'E8']),
     'C16': _p(['E8']),
     'C17': _p(['E8']),
@@ -36,6 +36,8 @@ PROPS = {
 ENGINE_INFO = {
     'E2': {'path': 'harness/vf/engines/e2.py + spec/TraceWords.tla, Filters.tla, TraceAPI.tla',
            'kind': 'all arrangements (words over {left,right,both}) of two token sets up to a length bound x measure x threshold on the real filter_pair / index+find_candidates / joins; TLC judges outcomes against the KeepMust envelope and the transcribed algorithms'},
+    'EM': {'path': 'harness/vf/engines/em.py + spec/Workers.tla, WorkersED.tla, Pipeline.tla, Matcher.tla, FilterSoundness.tla',
+           'kind': 'exhaustive TLC model checking of the specification itself (worker state machines with every admissible arithmetic, pipeline with every chunking and completion order, matcher, pruning logic over every token arrangement) incl. sabotaged configurations that must fail'},
     'E1': {'path': 'harness/vf/engines/e1.py + spec/TraceArith.tla, Filters.tla (Bounds), TraceAPI.tla',
            'kind': 'arithmetic envelopes: bound functions, SizeFilter.filter_pair on all count pairs, worst-case witnesses on filter_pair / joins / filter_tables for every token count up to N and a dense threshold grid'},
     'E4': {'path': 'harness/vf/engines/e4.py + spec/GenSchedules.tla, TraceLaws.tla, TraceAPI.tla',
